@@ -719,6 +719,9 @@ def check_fd_history(st, steps, ops, caller=None):
                     return ("C07/FileDataPdu.history/undocumented-error", "%s raised %s" % (where, core.ERR_NAMES.get(status[1], status[1])))
             elif verdict == "ok":
                 return ("C07/FileDataPdu.history/refuses-valid", "%s was refused" % where)
+            elif verdict == "any" and l[0] not in (15, 16, 30, 31) and status[1] != core.E_VALUE:
+                return ("C07/FileDataPdu.history/out-of-domain-value-error-class", "%s (a value outside the domain) was refused with %s, not with ValueError" % (
+                    where, core.ERR_NAMES.get(status[1], status[1])))
             after = st_refused          # (for "refuse" that is st2; for a refused out-of-domain assignment: as before the call)
             r = check_fd_state(after, lines, where + " (refused)")
             if r:
